@@ -60,4 +60,77 @@ def map2 {β} (f : Rat → Rat → β) : List Rat → List Rat → List β
   | a :: as, b :: bs => f a b :: map2 f as bs
   | _, _ => []
 
+/-! ### storage order -/
+
+/-- the elements of an array visited in another order (`idx` = the logical index of each visited element): what a
+    transposed / Fortran-ordered / strided / reversed view of the same values is, at the value level -/
+def pick {β} (l : List β) (idx : List Nat) (d : β) : List β := idx.map (fun i => l.getD i d)
+
+/-! ### sequences of calls and in-place modifications on the same arrays
+
+The conversions are pure: a call returns the formula of the *current* content of its arguments and changes nothing.
+`run` is that specification for a script of calls and in-place modifications of one set of named arrays
+(`tas, tasmin, tasmax, tasrange r, tasskew s, pr, prsn, prsnratio q`); the harness runs the same script on the real
+functions with the same array objects (tier B, driver op `seq`). -/
+
+structure Env where
+  tas : List Rat
+  tasmin : List Rat
+  tasmax : List Rat
+  r : List Rat
+  s : List Rat
+  pr : List Rat
+  prsn : List Rat
+  q : List Rat
+
+inductive Fn where
+  | tasrange | tasskew | rangeskew | tasmin | tasmax | minmax | prsnratio | prsn | pr
+
+/-- the output arrays of one call on the current content of the arrays (element-wise; `"div0"` = inf/NaN) -/
+def Fn.eval (e : Env) : Fn → List (List (Except String Rat))
+  | .tasrange => [(map2 getTasrange e.tasmin e.tasmax).map .ok]
+  | .tasskew => [map3 getTasskew e.tas e.tasmin e.tasmax]
+  | .rangeskew => [(map2 getTasrange e.tasmin e.tasmax).map .ok, map3 getTasskew e.tas e.tasmin e.tasmax]
+  | .tasmin => [(map3 getTasmin e.tas e.r e.s).map .ok]
+  | .tasmax => [(map3 getTasmax e.tas e.r e.s).map .ok]
+  | .minmax => [(map3 getTasmin e.tas e.r e.s).map .ok, (map3 getTasmax e.tas e.r e.s).map .ok]
+  | .prsnratio => [map2 getPrsnratio e.pr e.prsn]
+  | .prsn => [(map2 getPrsn e.pr e.q).map .ok]
+  | .pr => [map2 getPr e.prsn e.q]
+
+/-- the in-place modifications the harness performs between calls -/
+inductive Mod where
+  | shiftT (c : Rat)      -- tas, tasmin, tasmax -= c  (unit change; range and skew stay valid)
+  | scaleT (c : Rat)      -- tas, tasmin, tasmax, r *= c
+  | perturbTas (c : Rat)  -- tas += c
+  | scaleRS (c : Rat)     -- r *= c, s *= 1/2
+  | scalePr (c : Rat)     -- pr, prsn *= c
+
+def Mod.apply (e : Env) : Mod → Env
+  | .shiftT c => { e with tas := e.tas.map (· - c), tasmin := e.tasmin.map (· - c), tasmax := e.tasmax.map (· - c) }
+  | .scaleT c => { e with tas := e.tas.map (· * c), tasmin := e.tasmin.map (· * c), tasmax := e.tasmax.map (· * c), r := e.r.map (· * c) }
+  | .perturbTas c => { e with tas := e.tas.map (· + c) }
+  | .scaleRS c => { e with r := e.r.map (· * c), s := e.s.map (· * (1 / 2)) }
+  | .scalePr c => { e with pr := e.pr.map (· * c), prsn := e.prsn.map (· * c) }
+
+inductive Step where
+  | call (f : Fn)
+  | mod (m : Mod)
+
+def Step.isMod : Step → Bool
+  | .mod _ => true
+  | .call _ => false
+
+/-- the content of the arrays after a script: only the modifications act on it -/
+def envAfter : Env → List Step → Env
+  | e, [] => e
+  | e, .call _ :: t => envAfter e t
+  | e, .mod m :: t => envAfter (m.apply e) t
+
+/-- the outputs of the calls of a script, in order -/
+def run : Env → List Step → List (List (List (Except String Rat)))
+  | _, [] => []
+  | e, .call f :: t => f.eval e :: run e t
+  | e, .mod m :: t => run (m.apply e) t
+
 end Model.Convert
